@@ -89,6 +89,7 @@ def _construct_bystander():
 def main():
     job = json.load(sys.stdin)
     os.environ["HSVERIF_C03_SLOW"] = str(job.get("slow") or "")
+    os.environ["HSVERIF_C03_BYSTANDER"] = "1" if job.get("interleave_construct") else ""
     if job.get("perturb_time"):
         _perturb(job["perturb_time"])
     from hsverif.core import ensure_repo_on_path
@@ -125,7 +126,8 @@ def main():
             np0 = hashlib.sha1(np.random.get_state()[1].tobytes()).hexdigest() if np is not None else None
             np0pos = np.random.get_state()[2] if np is not None else None
             with EngineProbe(log_deliveries=True, instant_cap=20000, total_cap=300000) as p:
-                status = p.run(sc.sim)
+                # a scenario may bring its own driver (pause / resume through the control surface)
+                status = p.run(sc.sim, sc.extras.get("runner"))
             rng_used = hash(random.getstate()) != st0
             if np is not None:
                 s1 = np.random.get_state()
